@@ -41,9 +41,9 @@ CLAIMED = {
   'design_ref': 'DESIGN.md 3/C08', 'technique': _T,
   'note': _N + 'Bounds: <=4 symbols in a table, k<=3 symbols end to end at precision 2^4; LUT build cut out of Create and proved separately.'},
  'C10': {
-  'text': 'Object-level: the transform description attached to an attribute is bit-identical to the decoder\'s parameters, and applying the re-read description gives bit-identical floats to the ordinary inverse transform (float ops abstracted as uninterpreted functions, sound for equalities).',
+  'text': 'Object-level: the transform description attached to an attribute is bit-identical to the decoder\'s parameters, and applying the re-read description gives bit-identical floats to the ordinary inverse transform (float ops abstracted as uninterpreted functions, sound for equalities). Both decoders: the real SequentialNormalAttributeDecoder attaches the description for every version; the real KdTreeAttributesDecoder creates portable attributes carrying the type / component count / unique id of their attribute, and with EVERY subset of types skipped pairs each float attribute with its OWN portable data, unique id and transform description (found and, after the fix, proves the absence of the unique-id defect).',
   'design_ref': 'DESIGN.md 3/C10', 'technique': _T + '; float arithmetic as uninterpreted functions',
-  'note': _N + 'Bounds: 1 value, <=3 components. Option plumbing of Decoder::SetSkipAttributeTransform outside the claim.'},
+  'note': _N + 'Bounds: 1 value, <=3 components; kd-tree: 2 float attributes, 1 value x 1 component. The option lookup is a table model; option plumbing of Decoder::SetSkipAttributeTransform, the kd-tree core and the legacy (<2.3) kd-tree path are outside the claim.'},
  'C12': {
   'text': '2-safety proof on the real AttributeQuantizationTransform + PointAttribute objects: the decoded value of a point is independent of the other point, for every q and all float inputs; explicit parameters are stored verbatim; the real SequentialQuantizationAttributeEncoder::Init takes them from the options of THIS attribute id whatever the other keys hold.',
   'design_ref': 'DESIGN.md 3/C12', 'technique': _T + '; self-composition, float arithmetic as uninterpreted functions',
